@@ -19,6 +19,7 @@
 //!   R2 assert!/assert_eq!/debug_assert!/debug_assert_eq! -> verif_assert(..)/verif_debug_assert(..)
 //!   R3 X.iter_mut().for_each(|x| *x -= E)                -> verif_sub_assign_all(X, E)
 //!   R4 s![..e]                                           -> verif_slice_to(e)
+//!   R8 X.iter().cloned().zip(Y.into_iter()).collect()   -> verif_zip_collect(X, Y)
 //!   R7 tail expression carrying an `after_call` anchor   -> { let __r = <tail>; <ghost>; __r }
 //! Exit codes: 0 ok, 3 lost anchor / item not found, 4 usage or internal error.
 
@@ -465,6 +466,27 @@ impl<'a, 'ast> Visit<'ast> for Scanner<'a> {
                                             return;
                                         }
                                     }
+                                }
+                            }
+                        }
+                    }
+                }
+            }
+        }
+        // R8: X.iter().cloned().zip(Y.into_iter()).collect()
+        if c.method == "collect" && c.args.is_empty() {
+            if let syn::Expr::MethodCall(z) = &*c.receiver {
+                if z.method == "zip" && z.args.len() == 1 {
+                    if let (syn::Expr::MethodCall(cl), syn::Expr::MethodCall(ii)) = (&*z.receiver, &z.args[0]) {
+                        if cl.method == "cloned" && ii.method == "into_iter" && ii.args.is_empty() {
+                            if let syn::Expr::MethodCall(it) = &*cl.receiver {
+                                if it.method == "iter" && it.args.is_empty() {
+                                    let (a, b) = self.src.range(c.span());
+                                    let xs = self.text(it.receiver.span()).to_string();
+                                    let ys = self.text(ii.receiver.span()).to_string();
+                                    self.scan.rewrites.push((a, b, format!("verif_zip_collect({}, {})", xs.trim(), ys.trim()), "R8".into()));
+                                    self.record_call("verif_zip_collect".into());
+                                    return;
                                 }
                             }
                         }
